@@ -16,7 +16,10 @@ Open Scope string_scope.
 Open Scope list_scope.
 
 (* (1) holds for every history, with no guard: the i-th transceiver stays the
-   i-th transceiver, keeps its kind and, once set, its mid *)
+   i-th transceiver, keeps its kind and, once set, its mid (histories: any
+   interleaving of AddTransceiver, AddTrack - which may reuse a transceiver -,
+   RemoveTrack, Stop, CreateDataChannel, CreateOffer, CreateAnswer, SetLocal /
+   SetRemoteDescription with offer, pranswer, answer) *)
 Theorem c09_mid_immutable : forall ops1 ops2 i t,
   nth_error (trs (run ops1)) i = Some t ->
   exists t', nth_error (trs (run (ops1 ++ ops2))) i = Some t' /\
@@ -53,8 +56,9 @@ Print Assumptions c09_position_stable_answer_partial.
 (* (2), a whole round: once an exchange has ended with remote description ra
    whose mids are those of our description d1 (ra answers our offer d1, or d1 is
    our answer to the offer ra), every offer created afterwards - after any local
-   AddTransceiver / Stop / CreateDataChannel / CreateOffer calls - starts with the
-   sections of d1 at their places; whatever is new comes after them *)
+   AddTransceiver / AddTrack / RemoveTrack / Stop / CreateDataChannel /
+   CreateOffer calls - starts with the sections of d1 at their places; whatever
+   is new comes after them *)
 Theorem c09_round_partial : forall s d1 ra ops s2 d2,
   cur_remote s = Some ra -> pend_remote s = None ->
   map Some (map r_mid (r_secs ra)) = sec_mids d1 ->
@@ -91,7 +95,9 @@ Proof. exact chain_lemma. Qed.
 Print Assumptions c09_position_stable_history_partial.
 
 (* (3): a mid CreateOffer gives a transceiver differs from every mid of the
-   current remote description (while greaterMid does not overflow) ... *)
+   current and of the pending remote description (while greaterMid does not
+   overflow; before the repair of the numbering loop only the current one was
+   scanned: was c09_refuted_pending_remote_mid) ... *)
 Theorem c09_no_reuse_partial : forall s i t t' r,
   offer_nowrap s = true ->
   nth_error (trs s) i = Some t -> t_mid t = "" ->
@@ -100,8 +106,17 @@ Theorem c09_no_reuse_partial : forall s i t t' r,
 Proof. exact fresh_mid_not_in_remote_lemma. Qed.
 Print Assumptions c09_no_reuse_partial.
 
-(* ... and, in histories inside C06's numbering guard, from every other
-   transceiver's mid at every point of the history *)
+(* ... from the mid of every transceiver, wherever it stands in the list ... *)
+Theorem c09_no_reuse_of_transceiver_mid_partial : forall s i t t' u,
+  offer_nowrap s = true ->
+  nth_error (trs s) i = Some t -> t_mid t = "" ->
+  nth_error (trs (offer_alloc s)) i = Some t' ->
+  In u (trs s) -> t_mid t' <> t_mid u.
+Proof. exact fresh_mid_not_a_transceiver_mid_lemma. Qed.
+Print Assumptions c09_no_reuse_of_transceiver_mid_partial.
+
+(* ... so that, in histories without counter overflow, the transceivers' mids
+   are pairwise distinct at every point of the history *)
 Theorem c09_no_reuse_among_transceivers_partial : forall ops,
   remote_ok ops -> nowrap_all ops ->
   forall s o out s', In (s, o, out, s') (trace ops) ->
@@ -130,6 +145,13 @@ Theorem c09_refuted_local_data_mid :
     [[(KApplication, Some "0")]; [(KAudio, Some "0"); (KApplication, Some "1")]].
 Proof. exact wit_c09_local_data. Qed.
 Print Assumptions c09_refuted_local_data_mid.
+
+(* (3): after greaterMid wrapped around, the next CreateOffer gives a new
+   transceiver a mid another transceiver already has *)
+Theorem c09_refuted_counter_overflow :
+  ~ NoDup (set_mids (trs (run wit_overflow))).
+Proof. exact wit_c09_overflow. Qed.
+Print Assumptions c09_refuted_counter_overflow.
 
 Example c09_partial_nontrivial :
   exists d rd, snd (create_offer st_reneg) = Ok d /\ offer_remote (offer_alloc st_reneg) = Some rd /\
